@@ -11,6 +11,10 @@ one canonical shape before any rule looks at it (line numbers are kept for repor
       and for conditional expressions; elif chains and ifs without else untouched)
   K4  x = x op y  ->  x op= y   (op in + - * / | & ; also x = y op x for * | &)
   K5  operands of a multiplication chain are sorted by their text
+  K6  statements without effect are dropped from every block that keeps at least one other statement: `pass`, a bare
+      constant / name / pure expression (docstrings are kept), and logging-style calls (`print`, `logging.*`, `logger.*`,
+      `log.*`, `warnings.warn`, `*.log_message`, `log_message`, also behind `FLAG and ...`) whose arguments contain no call
+      other than pure builtins -- so an added log line or a `pass` never changes what a rule sees
 """
 from __future__ import annotations
 
@@ -107,7 +111,64 @@ class Canon(ast.NodeTransformer):
         return n
 
 
+_PURE = {"str", "repr", "len", "int", "float", "bool", "sorted", "list", "tuple", "dict", "set", "type", "id", "sum", "min", "max", "round", "format", "abs", "isinstance", "getattr", "hasattr"}
+_LOG_BASES = {"logging", "logger", "log", "_logger", "LOGGER", "LOG"}
+
+
+def _pure_expr(e, allow_log_call=False) -> bool:
+    """No effect when evaluated and discarded (attribute reads are taken to be effect-free)."""
+    if isinstance(e, (ast.Await, ast.Yield, ast.YieldFrom, ast.NamedExpr)):
+        return False
+    if isinstance(e, ast.Call):
+        f = e.func
+        ok_callee = isinstance(f, ast.Name) and f.id in _PURE
+        if allow_log_call and not ok_callee:
+            if isinstance(f, ast.Name) and f.id in ("print", "log_message"):
+                ok_callee = True
+            elif isinstance(f, ast.Attribute):
+                base = f.value
+                if isinstance(base, ast.Name) and (base.id in _LOG_BASES or (base.id == "warnings" and f.attr == "warn")):
+                    ok_callee = True
+                elif f.attr == "log_message" and _pure_expr(base):
+                    ok_callee = True
+        if not ok_callee:
+            return False
+        return all(_pure_expr(a) for a in e.args) and all(_pure_expr(k.value) for k in e.keywords)
+    if isinstance(e, (ast.ListComp, ast.SetComp, ast.DictComp, ast.GeneratorExp, ast.Lambda, ast.Starred)):
+        return False
+    return all(_pure_expr(c) for c in ast.iter_child_nodes(e) if isinstance(c, ast.expr))
+
+
+def _is_noop(s: ast.stmt) -> bool:
+    if isinstance(s, ast.Pass):
+        return True
+    if isinstance(s, ast.Expr):
+        v = s.value
+        if isinstance(v, ast.BoolOp) and isinstance(v.op, ast.And) and len(v.values) == 2 and isinstance(v.values[0], ast.Name):
+            v = v.values[1]  # DEBUG and log_message(...)
+        return _pure_expr(v, allow_log_call=True)
+    return False
+
+
+class DropNoops(ast.NodeTransformer):
+    def generic_visit(self, n):
+        super().generic_visit(n)
+        for fld in ("body", "orelse", "finalbody"):
+            b = getattr(n, fld, None)
+            if isinstance(b, list) and b and isinstance(b[0], ast.stmt):
+                keep = []
+                for i, s in enumerate(b):
+                    is_doc = i == 0 and isinstance(s, ast.Expr) and isinstance(s.value, ast.Constant) and isinstance(s.value.value, str) and isinstance(n, (ast.FunctionDef, ast.AsyncFunctionDef, ast.ClassDef, ast.Module))
+                    if is_doc or not _is_noop(s):
+                        keep.append(s)
+                if not keep:
+                    keep = [b[0] if isinstance(b[0], ast.Pass) else ast.copy_location(ast.Pass(), b[0])]
+                setattr(n, fld, keep)
+        return n
+
+
 def canonicalise(tree: ast.Module) -> ast.Module:
+    tree = DropNoops().visit(tree)
     tree = Canon().visit(tree)
     ast.fix_missing_locations(tree)
     return tree
